@@ -65,6 +65,14 @@ def build_pair(cfg, spilog=True, horizon=20 * 1000 * MS):
         b.open_rx_pipe(1, p1)
     b.open_rx_pipe(cfg["pipe"], addr)
     b.listen = True
+    if cfg.get("rx_hist") == "txrole":
+        # the receiver answered somebody in between: it opened a TX pipe (auto-ack puts that address on pipe 0 while it
+        # transmits) and came back to RX mode - it listens on the addresses it opened for reading, as before
+        w.advance(300 * US)
+        b.listen = False
+        b.open_tx_pipe(bytes([0x6B, 0x7C, 0x8D, 0x9E, 0xAF][:cfg["aw"]]))
+        w.advance(300 * US)
+        b.listen = True
     a.listen = False
     if cfg.get("tx_hist") == "rx0":
         # the transmitter was a receiver on pipe 0 before: its own reading address must not end up in TX_ADDR
@@ -96,6 +104,10 @@ def build_pair(cfg, spilog=True, horizon=20 * 1000 * MS):
         b.power = True
         a.power = True
     w.advance(300 * US)
+    if cfg.get("bystander"):
+        # a third (and fourth) object of the drivers' classes lives in the same program (H.bystander); kept alive in the world
+        w.bystanders = [H.bystander(w, cls_of(c), "by_" + c) for c in sorted({cfg["tx_cls"], cfg["rx_cls"]})]
+        w.advance(300 * US)
     return w, a, ra, b, rb
 
 
